@@ -292,6 +292,7 @@ class SimReactor(object):
         self.running = True
         self.probe = None         # optional callable -> the protocol object the agent's FSM tracks
         self.defer_io = False     # True: connectionLost after loseConnection waits for an explicit deliver_io()
+        self.segments = None      # n: whatever the peer sends in one go reaches the agent in n TCP segments ('bytes': octet by octet)
 
     def install(self):
         _proxy._install(self)
@@ -512,6 +513,15 @@ class SimReactor(object):
     def peer_send(self, c, data):
         self._current()
         """Deliver one TCP segment. Returns True if it was delivered to the protocol."""
+        if self.segments and len(data) > 1:
+            n = len(data) if self.segments == 'bytes' else max(1, min(int(self.segments), len(data)))
+            size = -(-len(data) // n)
+            seg, self.segments = self.segments, None
+            try:
+                res = [self.peer_send(c, data[i:i + size]) for i in range(0, len(data), size)]
+            finally:
+                self.segments = seg
+            return res[0]
         tr = c.transport
         if c.state != 'connected' or tr is None or not tr.connected or tr.disconnecting:
             self.log('peer-data-dropped', c.id, bytes(data))
